@@ -302,9 +302,10 @@ def emit_tu(exprs, path_dir, label):
     os.makedirs(path_dir, exist_ok=True)
     path = os.path.join(path_dir, "gen_expr_%s_%s.cpp" % (label, h))
     if not os.path.exists(path):
-        with open(path + ".tmp", "w") as f:
+        tmp = "%s.%d.tmp" % (path, os.getpid())
+        with open(tmp, "w") as f:
             f.write(src)
-        os.replace(path + ".tmp", path)
+        os.replace(tmp, path)
     return path, h
 
 
